@@ -495,7 +495,7 @@ impl<'r> Gen<'r> {
             1 => {
                 self.note("if-expr");
                 self.in_head += 1;
-                let c = self.gen_expr(&Ty::Bool, d);
+                let c = self.gen_condition(d);
                 self.in_head -= 1;
                 let t = self.gen_block(ty, d, true);
                 let f = self.gen_block(ty, d, true);
@@ -511,6 +511,16 @@ impl<'r> Gen<'r> {
             5 => self.gen_projection(ty, d),
             _ => self.gen_specific(ty, d),
         }
+    }
+
+    /// The condition of an `if` / the left operand of `&&` / `||`: in 1 of 12 cases a constant (the
+    /// other path is dead code, which must stay silent and must not leave traces behind).
+    fn gen_condition(&mut self, d: u32) -> Expr {
+        if self.rng.chance(1, 12) {
+            self.note("constant-condition");
+            return e(ExprKind::Lit(Val::Bool(self.rng.bool())), Ty::Bool);
+        }
+        self.gen_expr(&Ty::Bool, d)
     }
 
     fn gen_call(&mut self, ty: &Ty, d: u32) -> Expr {
@@ -619,7 +629,7 @@ impl<'r> Gen<'r> {
                     2 => {
                         self.note("short-circuit");
                         let op = if self.rng.bool() { BinOp::AndAnd } else { BinOp::OrOr };
-                        let a = self.gen_expr(&Ty::Bool, d);
+                        let a = self.gen_condition(d);
                         // the right operand sometimes is a bare comparison of a negated signed variable
                         // (no arithmetic operator in sight, yet `-v` fails for v == MIN: it must stay
                         // silent when the left operand decides)
@@ -777,12 +787,28 @@ impl<'r> Gen<'r> {
                 if self.rng.chance(1, 8) {
                     Pat::Bind("_".into())
                 } else {
-                    let n = self.fresh("v");
+                    let n = self.pattern_binding_name();
                     self.declare(&n, ty.clone(), false);
                     Pat::Bind(n)
                 }
             }
         }
+    }
+
+    /// The name of a pattern binding: fresh, or (1 in 5) the name of a variable that is visible
+    /// already - the binding shadows it in its arm / loop body / rest of the block only.
+    fn pattern_binding_name(&mut self) -> String {
+        if self.rng.chance(1, 5) {
+            let vars: Vec<String> = self.visible_vars().into_iter().map(|v| v.name).filter(|n| n != "_" && !self.no_assign.contains(n)).collect();
+            // (not a name bound earlier in the same pattern: the current scope is the pattern's)
+            let current: Vec<String> = self.scopes.last().map(|s| s.iter().map(|v| v.name.clone()).collect()).unwrap_or_default();
+            let vars: Vec<String> = vars.into_iter().filter(|n| !current.contains(n)).collect();
+            if !vars.is_empty() {
+                self.note("pattern-binding-shadows-a-visible-variable");
+                return self.rng.pick(&vars).clone();
+            }
+        }
+        self.fresh("v")
     }
 
     /// A (possibly refutable) pattern; declares bound variables in the current scope.
@@ -935,7 +961,7 @@ impl<'r> Gen<'r> {
             let p = if self.rng.chance(1, 2) {
                 Pat::Bind("_".into())
             } else {
-                let n = self.fresh("v");
+                let n = self.pattern_binding_name();
                 self.declare(&n, sty.clone(), false);
                 Pat::Bind(n)
             };
@@ -1262,7 +1288,7 @@ impl<'r> Gen<'r> {
             3 => {
                 self.note("if-stmt");
                 self.in_head += 1;
-                let c = self.gen_expr(&Ty::Bool, d);
+                let c = self.gen_condition(d);
                 self.in_head -= 1;
                 let t = self.unit_block(d);
                 let f = if self.rng.chance(1, 2) { self.unit_block(d) } else { Block::default() };
@@ -1604,6 +1630,21 @@ impl<'r> Gen<'r> {
             stmts.push(Stmt::new(StmtKind::LetMut(name.clone(), ty.clone(), init, true)));
             accs.push((name, ty));
         }
+        // in a third of the programs the loop runs inside a block in which `acc0` is shadowed by a new
+        // binding of the same name (the loop updates the inner one, its final value is carried out
+        // through another variable; the outer `acc0` must come out unchanged)
+        let shadow: Option<Ty> = if self.rng.chance(1, 3) { accs.iter().find(|(n, _)| n == "acc0").map(|(_, t)| t.clone()) } else { None };
+        let mut inner_stmts: Vec<Stmt> = vec![];
+        if let Some(t0) = &shadow {
+            self.note("for-join-under-a-shadowing-binding");
+            let init = self.construct(t0, 0);
+            self.declare("carry", t0.clone(), true);
+            stmts.push(Stmt::new(StmtKind::LetMut("carry".into(), t0.clone(), init, true)));
+            self.scopes.push(vec![]);
+            let init2 = self.construct(t0, 0);
+            self.declare("acc0", t0.clone(), true);
+            inner_stmts.push(Stmt::new(StmtKind::LetMut("acc0".into(), t0.clone(), init2, true)));
+        }
         // the loop
         self.scopes.push(vec![]);
         let pty = Ty::Tuple(vec![ea.clone(), eb.clone()]);
@@ -1668,7 +1709,17 @@ impl<'r> Gen<'r> {
                 }
             }
         }
-        stmts.push(Stmt::new(StmtKind::ForJoin { pat, a: head_a, b: head_b, body }));
+        let join_stmt = Stmt::new(StmtKind::ForJoin { pat, a: head_a, b: head_b, body });
+        match &shadow {
+            Some(t0) => {
+                inner_stmts.push(join_stmt);
+                inner_stmts.push(Stmt::new(StmtKind::Assign { var: "carry".into(), accs: vec![], op: None, value: e(ExprKind::Var("acc0".into()), t0.clone()), target_ty: t0.clone() }));
+                self.scopes.pop();
+                stmts.push(Stmt::new(StmtKind::Expr(e(ExprKind::Block(Block { stmts: inner_stmts, tail: None }), Ty::unit()))));
+                accs.push(("carry".to_string(), t0.clone()));
+            }
+            None => stmts.push(join_stmt),
+        }
         let items: Vec<Expr> = accs.iter().map(|(n, t)| e(ExprKind::Var(n.clone()), t.clone())).collect();
         let (tail, ret) = if items.len() == 1 {
             let t = items[0].ty.clone();
